@@ -34,7 +34,8 @@ CLAIMED = {
         text="QueueState.tla states the five documented states and the documented order of disappearance as a monitor over directory events; QueueFiles.tla is explored exhaustively (2-3 injectors, "
              "inode pool of 2, crashes) with the monitor judging every step. On the real programs 1-3 qmail-queue processes run at once against the daemon under seeded random schedules at "
              "system-call granularity, the daemon is crashed before its mutating calls and restarted, injectors are killed before each call (stale entries), the clock is moved past 36 h and "
-             "clean-up periods, a second qmail-send is started; TLC replays every directory event and evaluates the state table after each.",
+             "clean-up periods, a second qmail-send is started; TLC replays every directory event and evaluates the state table after each."
+             " Added later: injectors that stall before each of their calls, started by a program that had SIGALRM blocked (inherited signal mask), with their own 24-hour timer going off and the daemon's 36-hour collection passing over them before they are released.",
         note="directory operations synchronous; readdir as the kernel behaves; one process moves at a time (gate)",
         design="5 C02"),
     "C03": dict(
@@ -43,7 +44,8 @@ CLAIMED = {
              "and bounce records, TERM/restart) with the invariant that the monitor QSendMon never objects. The same monitor judges every history run on the real "
              "programs: a controller plays qmail-start and both spawners, every system call of the daemon, the cleaner and qmail-queue is granted one at a time, "
              "so crashes and failures are placed before any chosen call and quiescence is exact. "
-             "Added since: each unlink of qmail-clean failing in turn, failing reads / opens in a message that follows a completely delivered one, histories with qmail-qread and with the activity record as events (X01 / X02, DESIGN 5c).",
+             "Added since: each unlink of qmail-clean failing in turn, failing reads / opens in a message that follows a completely delivered one, histories with qmail-qread and with the activity record as events (X01 / X02, DESIGN 5c)."
+             " Added later: messages with recipients on both channels beyond the daemon's 1024-byte list buffers (strict: the lists written at preprocessing are compared with the accepted envelope).",
         note="delivery agents are not run (the controller answers delivery commands); lossy crash = per-file revert to the last fsync image, marks individually; time is virtual",
         design="5 C03"),
     "C04": dict(
@@ -60,14 +62,16 @@ CLAIMED = {
              "envelope; size/hop/address refusals permanent and nothing queued; queue exit codes classed as qmail-queue(8) documents; a Received field made of safe bytes only. IngestModel.tla checks "
              "the transcribed daemons for every combination. The real daemons are run over every exit status 0..255, custom texts, death by signal, bodies around databytes, 98..101 hop fields, "
              "over-long/NUL/policy-refused addresses, hostile peer strings and every cut point of small transactions; TLC judges every record. "
-             "Added since: several messages on one connection (every ordered pair of message kinds), one failing or short call of the daemon per run, incomplete requests (every cut point, wrong last byte) must queue nothing.",
+             "Added since: several messages on one connection (every ordered pair of message kinds), one failing or short call of the daemon per run, incomplete requests (every cut point, wrong last byte) must queue nothing."
+             " Added later: the three daemons in front of the REAL qmail-queue for transactions that are given up with the flushed part of the envelope ending at / next to a record boundary of qmail.c's 1024-byte buffer; bodies with bare CRs, CR CR and stuffed dots at databytes-1 .. +3.",
         note="'queued' = the stand-in saw the terminator and exited 0; exit codes 100..255 and 115 only required to give a negative reply",
         design="5 C07"),
     "C08": dict(
         technique="TLA+ transcription of qmail-smtpd's session logic checked by TLC against a reply-driven transaction/relay-policy monitor for every command sequence up to a bound x configurations + TLC validation of tens of thousands of real interactive and pipelined qmail-smtpd sessions",
         text="SmtpSession.tla states the property over (command, reply class, envelope submitted) with abstract addresses and configurations; SmtpModel.tla checks the transcribed "
              "session logic against it exhaustively. Every real session (all sequences up to length 3 over 25 commands, seeded longer ones under 8 configurations, arguments rendered "
-             "in many forms, CRLF/LF, replayed pipelined; morercpthosts.cdb built by the real qmail-newmrh; envelope captured by the QMAILQUEUE stand-in) is folded through the same monitor by TLC.",
+             "in many forms, CRLF/LF, replayed pipelined; morercpthosts.cdb built by the real qmail-newmrh; envelope captured by the QMAILQUEUE stand-in) is folded through the same monitor by TLC."
+             " Added later: sessions whose message is refused after 354 (too large, 100 hops, queue program failing temporarily / permanently) followed by every continuation of two / three commands: however a DATA ends, the transaction is over.",
         note="the mailbox an argument denotes is known by construction (rendering is harness code; the inverse parse is C17); 900+ byte addresses count as over the limit",
         design="5 C08"),
     "C09": dict(
@@ -83,14 +87,16 @@ CLAIMED = {
         text="Rewrite.tla defines Route, MsgVerdict, SenderAdd and Effective (controls as of start / last HUP); RewriteSend.tla transcribes the code and is checked over ~30k configurations x "
              "envelopes x edits with every branch action covered. The real daemon is played in parallel sandboxes (qmail-start plumbing), messages are injected by the real qmail-queue, "
              "local/remote lists and delivery commands are read back; ~400k recipient evaluations per quick run are judged by TLC. "
-             "Added since: control files with empty lines and an unterminated last line, a name with every letter of the alphabet in both cases.",
+             "Added since: control files with empty lines and an unterminated last line, a name with every letter of the alphabet in both cases."
+             " Added later: HUP arriving while a scan of todo/ is open (gated run: two messages queued while the daemon is held, the daemon stopped between them, control files rewritten, HUP, released): the second message follows the new files.",
         note="percent hack with an @ inside the would-be domain left open between three readings; duplicate control keys outside the domain (as the property says)",
         design="5 C10"),
     "C11": dict(
         technique="TLA+ declarative Assign/GetPw/identity monitors vs. step transcription of qmail-newu, nughde_get/spawn and qmail-getpw checked by TLC + TLC validation of deliveries through the real qmail-newu/qmail-lspawn/qmail-getpw under the shim (generated passwd db, setgroups/setgid/setuid/exec trace, damaged cdb files)",
         text="Users.tla is the documents' reading; UsersLspawn.tla transcribes the code one action per key tried / identity call, with branch coverage enforced and the as-found qmail-newu variant "
              "required to fail. 20k deliveries per quick run (tables, passwd databases, home ownership, hash-colliding keys, every truncation / redirected pointer of users/cdb, lookup errors) "
-             "run through the real programs with a stand-in qmail-local that dumps argv and ids; every record is judged by TLC.",
+             "run through the real programs with a stand-in qmail-local that dumps argv and ids; every record is judged by TLC."
+             " Added later: local parts and wildcard prefixes of 29..34, 45, 63..65 and 100 bytes (users/cdb compares keys in 32-byte pieces) with near misses behind the first 32 / 64 bytes.",
         note="cdb hash arithmetic bound only as a black-box map (32-bit TLC integers); arbitrary pointer overwrites only required to never run as root / never bounce",
         design="5 C11"),
     "C12": dict(
@@ -111,14 +117,16 @@ CLAIMED = {
         technique="TLC model check of the transcribed addbounce() sanitiser against a paragraph monitor for every failure text up to a bound + the queue-manager model/monitor (bounce chain) + TLC trace validation of bounce histories on the real qmail-send/qmail-queue with hostile report texts, all sender forms and bounce controls",
         text="Bounce.tla defines paragraphs of a notice and NoticeVerdict (exactly one '<rcpt>:' paragraph per failed recipient) and is checked for every text over a hostile alphabet; "
              "the C14 clauses of QSendMon (envelope of bounce / double bounce, record -> notice queued -> record removed, discard only of a failing double bounce, no foreign or duplicate "
-             "names) are evaluated on histories of the real daemon in which the bytes of every queued notice are judged by the same operator.",
+             "names) are evaluated on histories of the real daemon in which the bytes of every queued notice are judged by the same operator."
+             " Added later: writes to the bounce record that come up short (the projection reassembles a paragraph written in pieces).",
         note="a forged '--- Below this line' separator is outside the statement and not generated; both spellings of a virtual-domain recipient accepted",
         design="5 C14"),
     "C15": dict(
         technique="TLC model check of the transcribed square-root loop, back-off formula and array heap + TLC validation of records from the real squareroot()/nextretry()/prioq.c (seam), C sweep of the post-condition over the 2^32 domain",
         text="TLC proves on the complete domain of a scaled loop that the shift-and-subtract algorithm is the floor square root, that the back-off time is "
              "strictly in the future, and that the array heap keeps order/minimum/bag for every operation sequence up to a bound; results of the real functions "
-             "(square boundaries, seeded grids, every operation sequence of the model's domain, long random ones) are records judged by TLC. Daemon level: strict histories under the virtual clock (retry times probed from both sides, across TERM/restart and ALRM, queue lifetimes, several due messages on one slot, one channel saturated while the other waits for a retry time) judged by the C15 clauses of the monitor.",
+             "(square boundaries, seeded grids, every operation sequence of the model's domain, long random ones) are records judged by TLC. Daemon level: strict histories under the virtual clock (retry times probed from both sides, across TERM/restart and ALRM, queue lifetimes, several due messages on one slot, one channel saturated while the other waits for a retry time) judged by the C15 clauses of the monitor."
+             " Added later: ALRM while only one channel holds deferred messages (the other channel's retry queue never used, or used and drained).",
         note="function-level seams as in tests/; 32-bit TLC integers: ages >= 2^31 only in the C sweep; daemon-level retry histories (virtual clock) are added by the queue-manager controller",
         design="5 C15"),
     "C16": dict(
@@ -126,7 +134,8 @@ CLAIMED = {
         text="Trigger.tla models the FIFO as this kernel implements it and every interleaving of 1-3 injectors with the daemon (NoLostWakeup, EventuallyScanned, rescan disabled). The real programs "
              "are stepped through placements of the injector's {link todo, open, write, close trigger} among the daemon's schedule points (calls on lock/trigger, opendir/readdir of todo/, select) "
              "in two scenarios; at the final quiescent point every accepted message must have been preprocessed; select time-outs at every quiescent point of seeded histories are judged by the "
-             "C16 clauses of the monitor.",
+             "C16 clauses of the monitor."
+             " Repaired later (found by a seeded change): the interleaving scheduler no longer gives up the daemon's turn while the daemon waits for qmail-clean, so the injector's steps are really placed at every daemon point of a scan; objections of wake-up interleavings are confirmed by re-running the same interleaving.",
         note="readdir behaves as the kernel does in the recorded runs (glibc reads the directory at the first readdir, so re-arming between opendir and the first readdir is not observable here)",
         design="5 C16"),
     "C17": dict(
@@ -196,7 +205,7 @@ def main():
                      "kind_free_text": "TLA+ specifications in spec/ model-checked by TLC; records/traces taken from the real programs built from /repo's working tree are validated by TLC against the same specifications"}],
         "checks": checks,
         "not_applicable": na,
-        "notes": "exit 0 = held, exit 1 + VIOLATION line = monitor failed on behaviour of the real code, exit 2 = infrastructure (never a verdict). known_findings.txt lists repaired (fixed:) and recorded (known:) defects.",
+        "notes": "exit 0 = held, exit 1 + VIOLATION line = monitor failed on behaviour of the real code, exit 2 = infrastructure (never a verdict). known_findings.txt lists repaired (fixed:) and recorded (known:) defects. Specification coverage beyond the fixed property list has checks of its own that are not registered here: ./check X01 .. X08 (DESIGN.md 5c; evidence/X0n.json).",
     }
     with open(os.path.join(V, "MANIFEST.json"), "w") as f:
         json.dump(m, f, indent=1)
